@@ -8,7 +8,8 @@ import Glom.Model.C01Py
                               → `Table.map`, `Table.tree`, `Reg.cache`
     * `TargetRegistry.get_handler('get', obj)`  → `Reg.getHandler` (memo first; on a
       miss the exact type, else the closest fuzzily registered type; `False` is
-      UnregisteredTarget and is *not* memoised; a hit is memoised)
+      UnregisteredTarget and is *not* memoised by a raising lookup — one remembered
+      from a raise_exc=False lookup raises all the same; a hit is memoised)
     * `TargetRegistry.register(t, get=…, exact=…)` → `Reg.register` (memo reset)
     * `_t_eval`'s `while i < fetch_till` loop   → `tLoop2`: the registry is threaded
       through the loop (every 'P' step may grow the memo), `part_idx = i // 2`,
@@ -75,6 +76,7 @@ def Table.nearest (t : Table) (ct : ClassTable) (cls : String) : Option Handler 
 /-- `get_handler('get', obj)` → handler (`none` = UnregisteredTarget) and the registry after it -/
 def Reg.getHandler (r : Reg) (ct : ClassTable) (cls : String) : Option Handler × Reg :=
   match alookup r.cache cls with
+  | some .off => (none, r)          -- a `False` remembered from a raise_exc=False lookup: raises all the same
   | some hn => (some hn, r)
   | none =>
     match r.tbl.nearest ct cls with
